@@ -11,7 +11,15 @@ pub struct Thread {
     epoch: u64,
 }
 
+/// Counterpart of `std::thread::ThreadId` (unique within an execution)
+#[derive(Clone, Copy, Debug, PartialEq, Eq, Hash)]
+pub struct ThreadId(TaskId, u64);
+
 impl Thread {
+    pub fn id(&self) -> ThreadId {
+        ThreadId(self.tid, self.epoch)
+    }
+
     pub fn unpark(&self) {
         rt::sched_point();
         rt::unpark(self.tid, self.epoch);
